@@ -1008,6 +1008,12 @@ impl Ctx {
         for (what, n) in &self.known_hit {
             println!("KNOWN-FINDING: property={} {} (hit {} times)", self.property, what, n);
         }
+        // cases the harness could not even generate or judge because code panicked underneath it (typically repository
+        // code called by a generator): the run explored less than it claims — inconclusive, never silently green
+        let harness_panics = self.inconclusive.iter().filter(|m| m.contains("generator panicked:") || m.contains("harness panic:")).count();
+        if harness_panics > 0 && self.violations.is_empty() {
+            self.extra.insert("hard_inconclusive".into(), json!(format!("{harness_panics} cases could not be generated/judged because of a panic below the harness")));
+        }
         let hard_inconclusive = self.extra.contains_key("empty_required_class") || self.extra.contains_key("hard_inconclusive");
         let mut coverage = json!({
             "evaluations": self.evaluations,
